@@ -177,6 +177,9 @@ type Alpha struct {
 	PathT1   bool // C05: the built-in test t1 of every node is declared with IssuePath("alias@<node>")
 	NegStr   bool // C05: the second test of a string node is the built-in negated test Not().Contains("2") instead of a TestFunc with the same predicate
 	NoBracket bool // the tag assignment already names a list field with a "[]" suffix: no "only under key[]" input class
+	StructFails bool // every struct node carries a failing struct-level test unless a focus unit changes that (costs no unit)
+	CatchAll bool // reduced alphabets: every primitive node catches unless a focus unit changes that (costs no unit)
+	PtrReq   bool // every pointer node is NotNil unless a focus unit makes it optional (so NotNil costs no unit)
 	OldIface bool // C12: the custom test of non-catching Int nodes files its issue through the deprecated Ctx.NewError
 	MutPost  bool // C13: value-changing PostTransforms are part of the alphabet {none, one changing, changing + plain}
 }
@@ -231,6 +234,9 @@ func (a *Alpha) primCfg(n *Node, idx int) {
 	}
 	if a.Lite {
 		n.Tests = []TestSpec{t2}
+		if a.CatchAll && !a.NoCatch && (idx == 0 || idx == 2) {
+			idx = 2 - idx // catching is the default, the plain node the deviation
+		}
 		switch idx {
 		case 1:
 			n.Req = true
@@ -475,6 +481,9 @@ func (a *Alpha) structCfg(n *Node, idx int) {
 	s1 := TestSpec{Code: "s1"}
 	s2 := TestSpec{Code: "s2", Fails: true}
 	s3 := TestSpec{Code: "s3", Fails: true}
+	if a.StructFails && (idx == 0 || idx == 2) {
+		idx = 2 - idx // a failing struct-level test is the default, the passing one the deviation
+	}
 	switch idx {
 	case 0:
 		n.Tests = []TestSpec{s1}
@@ -540,7 +549,7 @@ func (b *caseBuilder) buildNode(s *Skel) *Node {
 		b.a.sliceCfg(n, b.pick(unit, "cfg", b.a.sliceCfgN(s.Elem.Kind)), s.Elem.Kind)
 		n.Elem = b.buildNode(s.Elem)
 	case KPtr:
-		n.Req = b.pick(unit, "cfg", 2) == 1
+		n.Req = (b.pick(unit, "cfg", 2) == 1) != b.a.PtrReq // PtrReq: NotNil is the default, optional the deviation
 		n.Elem = b.buildNode(s.Elem)
 	case KStruct:
 		b.a.structCfg(n, b.pick(unit, "cfg", b.a.structCfgN()))
